@@ -150,10 +150,75 @@ def _replay_history(r):
     return False, "ok"
 
 
+_SMALL_CACHE_SCRIPT = r"""
+import sys, json, itertools, numpy
+sys.path.insert(0, sys.argv[1])
+from tangermeme.tools.tomtom import tomtom
+n_cache, nsb = int(sys.argv[2]), int(sys.argv[3])
+cases = json.loads(sys.argv[4])
+out = []
+for qs, ts in cases:
+    Qs = [numpy.array(q).T.copy() for q in qs]
+    Ts = [numpy.array(t).T.copy() for t in ts]
+    kw = dict(n_jobs=1, n_cache=n_cache, n_score_bins=nsb, n_target_bins=None, reverse_complement=False)
+    def call(qq):
+        try:
+            return tomtom(qq, Ts, **kw).numpy().tolist()
+        except ValueError as e:
+            return "rejected" if "n_cache" in str(e) else "raised ValueError: %s" % e
+        except Exception as e:
+            return "raised %s: %s" % (type(e).__name__, e)
+    alone = [call([q]) for q in Qs]
+    out.append({"alone": alone, "full": call(Qs), "rev": call(Qs[::-1])})
+    print("RESULT " + json.dumps(out), flush=True)
+"""
+
+
+def _replay_small_cache(r):
+    """real compiled tomtom with an n_cache smaller than the score offset, in a child process (out-of-bounds scratch accesses
+    of the compiled kernels corrupt the heap): every call must either be rejected or give in-range, history-independent results"""
+    import json
+    import math
+    import os
+    import subprocess
+    import sys
+    cases = [case(sd) for sd in [r.get("seed", 0)] + [k for k in range(6) if k != r.get("seed", 0)]]
+    cases = [([[list(map(float, c)) for c in q] for q in qs], [[list(map(float, c)) for c in t] for t in ts]) for qs, ts in cases]
+    p = subprocess.run([sys.executable, "-c", _SMALL_CACHE_SCRIPT, C.REPO, str(r["n_cache"]), str(r.get("n_score_bins", 6)), json.dumps(cases)],
+                       stdout=subprocess.PIPE, stderr=subprocess.PIPE, text=True, timeout=900, env=dict(os.environ))
+    lines = [l for l in p.stdout.splitlines() if l.startswith("RESULT ")]
+    done = json.loads(lines[-1][7:]) if lines else []
+    for k, res in enumerate(done):
+        runs = list(res["alone"]) + [res["full"], res["rev"]]
+        for v in runs:
+            if isinstance(v, str) and v != "rejected":
+                return True, "n_cache=%d: tomtom %s" % (r["n_cache"], v)
+            if not isinstance(v, str):
+                ps = [x for row in v[0] for x in row]
+                if any((not isinstance(x, float)) or math.isnan(x) or x < 0 or x > 1 for x in ps):
+                    return True, "n_cache=%d smaller than the score offset: p-values %s are not probabilities (scratch arrays indexed out of bounds)" % (r["n_cache"], ps[:4])
+        n = len(res["alone"])
+        for full, order in ((res["full"], list(range(n))), (res["rev"], list(range(n))[::-1])):
+            if isinstance(full, str):
+                if all(not isinstance(a, str) for a in res["alone"]):
+                    return True, "n_cache=%d: the call with all queries is rejected although every query alone is accepted" % r["n_cache"]
+                continue
+            for pos, q in enumerate(order):
+                a = res["alone"][q]
+                if not isinstance(a, str) and [f[pos] for f in full] != [f[0] for f in a]:
+                    return True, "n_cache=%d: query %d differs between alone and co-processed" % (r["n_cache"], q)
+    if p.returncode != 0:
+        return True, "n_cache=%d smaller than the score offset: the process running tomtom died with status %d after %d of %d query sets (%s)" % (
+            r["n_cache"], p.returncode, len(done), len(cases), (p.stderr.strip().splitlines() or ["no message"])[-1][:160])
+    return False, "ok"
+
+
 def replay(r):
     C.real_tangermeme()
     import numpy
     from tangermeme.tools.tomtom import tomtom
+    if r.get("mode") == "history" and r.get("n_cache") is not None:
+        return _replay_small_cache(r)
     if r.get("mode") == "kernel_history":
         return _replay_history(r)
     if r.get("mode") == "offsets":
@@ -226,8 +291,13 @@ def worker(cfg):
             return int(v)
         numba_s.get_thread_id = get_thread_id
         tt.numba.get_thread_id = get_thread_id
-        res = tt.tomtom([arr(qs[k]) for k in q_idx], [arr(t) for t in ts], n_nearest=n_nearest, n_score_bins=cfg["n_score_bins"], n_median_bins=50,
-                        n_target_bins=None, n_cache=cfg.get("n_cache", 30), reverse_complement=rc, n_jobs=n_jobs)
+        try:
+            res = tt.tomtom([arr(qs[k]) for k in q_idx], [arr(t) for t in ts], n_nearest=n_nearest, n_score_bins=cfg["n_score_bins"], n_median_bins=50,
+                            n_target_bins=None, n_cache=cfg.get("n_cache", 30), reverse_complement=rc, n_jobs=n_jobs)
+        except ValueError as e:
+            if "n_cache" in cfg and "n_cache" in str(e):
+                return None, 0            # rejected: the score offset does not fit the scratch arrays sized by n_cache
+            raise
         after = len([d for d in ctx.decisions if d[2] is None])
         return res.a, after - before
 
@@ -252,15 +322,26 @@ def worker(cfg):
                 base = {}
                 for k in range(len(qs)):
                     base[k], nb = run(ctx, [k], 1)
+                    if base[k] is None:
+                        continue
                     if nb or T.has_sym(base[k]):
                         add("tomtom:depends-on-uninitialised-scratch", "query %d processed alone: result depends on uninitialised scratch memory (%d branches on it)" % (k, nb))
                         return "returned"
                 for order in cfg["orders"]:
                     full, nb = run(ctx, order, 1)
+                    if full is None:
+                        ctx.stats.obligations += 1
+                        if all(base[k] is not None for k in order):
+                            add("tomtom:depends-on-co-processed-queries", "queries %s are rejected (n_cache) together although each is accepted alone" % (order,))
+                            return "returned"
+                        ctx.stats.discharged += 1
+                        continue
                     if nb or T.has_sym(full):
                         add("tomtom:depends-on-previous-query", "queries %s in one call: a result depends on what an earlier query left in the per-thread scratch (%d branches on it)" % (order, nb))
                         return "returned"
                     for pos, k in enumerate(order):
+                        if base[k] is None:
+                            continue
                         ctx.stats.obligations += 1
                         if np.array_equal(np.array(full[:, pos].tolist(), dtype=float), np.array(base[k][:, 0].tolist(), dtype=float)):
                             ctx.stats.discharged += 1
@@ -467,6 +548,9 @@ def configs(tier):
     for seed in ((0, 1) if q else (0, 1, 2, 3, 4, 5)):
         for rc in (False, True):
             cf.append(dict(mode="history", seed=seed, rc=rc, n_score_bins=6, orders=[[0, 1, 2], [2, 1, 0], [1, 2], [2, 2, 0]]))
+    # an n_cache smaller than the score offset: rejected, or in bounds and history independent - never out-of-bounds scratch
+    for seed, nc in (((1, 1), (2, 3)) if q else ((1, 1), (2, 3), (3, 0), (4, 2), (5, 4))):
+        cf.append(dict(mode="history", seed=seed, rc=False, n_score_bins=6, n_cache=nc, orders=[[0, 1, 2], [2, 1, 0], [1, 2]]))
     for seed in ((0, 2) if q else (0, 1, 2, 3)):
         cf.append(dict(mode="threads", seed=seed, rc=(seed % 2 == 0), n_score_bins=6, n_jobs=2))
     if not q:
